@@ -25,6 +25,8 @@ pub struct Agg {
     pub faults: BTreeMap<String, u64>,
     pub hashes: Vec<u64>,
     pub cut_short: BTreeMap<String, u64>,
+    /// runs with a violation of the property under check, per oracle rule and build flavour
+    pub viol_runs: BTreeMap<String, u64>,
     pub samples: Vec<serde_json::Value>,
     pub recheck: Vec<(u64, i64, u64)>,
     pub wall_ms: u64,
@@ -613,6 +615,7 @@ pub fn check(prop: &str, tier: &str) -> i32 {
             eprintln!("HARNESS: {} {}", v.rule, v.detail);
             continue;
         }
+        *agg.viol_runs.entry(format!("{} ({})", v.rule, v.flavour)).or_insert(0) += 1;
         classes.entry((v.rule.clone(), v.flavour.clone())).or_insert_with(|| v.clone());
     }
     let _ = std::fs::create_dir_all(format!("{}/replays", root()));
@@ -687,13 +690,14 @@ pub fn check(prop: &str, tier: &str) -> i32 {
     let wall = t0.elapsed().as_secs_f64();
     write_evidence(prop, tier, batch, &sp, &agg, distinct, rel_runs, dbg_runs, wall, reported, &known_hits, rechecked, mismatches);
     println!(
-        "{prop}: {} runs ({} histories, {} non-trivial, {} distinct non-trivial) in {:.1}s; violations reported: {}; known findings: {}; cut short by other properties: {:?}",
+        "{prop}: {} runs ({} histories, {} non-trivial, {} distinct non-trivial) in {:.1}s; violations reported: {}; violating runs: {:?}; known findings: {}; cut short by other properties: {:?}",
         agg.runs,
         agg.histories,
         agg.triggered,
         distinct,
         wall,
         reported,
+        agg.viol_runs,
         known_hits.len(),
         agg.cut_short
     );
@@ -744,6 +748,7 @@ fn write_evidence(prop: &str, tier: &str, batch: u64, sp: &spec::Spec, agg: &Agg
             "reach_probes_stuck_at_zero": zero_probes,
             "distinct_measure": "FNV hash of the sequence of recomputed node kinds per round over the whole run (recompute-order shape), counted over runs that met the non-trivial rule",
             "cut_short_by_other_properties": agg.cut_short,
+            "violating_runs_by_rule": agg.viol_runs,
             "determinism_recheck": { "runs_repeated_in_another_process": rechecked, "mismatches": mismatches },
             "known_findings_seen": known_hits,
             "components": {
